@@ -188,6 +188,10 @@ def variants_outcomes(g, entries, texts, sa, extends_parent=None):
                 rows.append([norm(sut.run(m, None, t, budget=diff.QUICK_BUDGET, fn=fn)) for t in texts])
             out[label] = rows
         # emitted source executed on its own
+        for label in ('unnamed+source', 'named+source'):
+            if label in mods and not isinstance(getattr(mods[label], '_source_code', None), str):
+                out[label] = 'include_source=True but the module has no _source_code'
+                del mods[label]
         if 'unnamed+source' in mods:
             src = mods['unnamed+source']._source_code
             fname = sut.fresh_name('vfsa')
@@ -204,7 +208,9 @@ def variants_outcomes(g, entries, texts, sa, extends_parent=None):
             dname = sut.fresh_name('vfc11d_')
             dm, derr = sut.compile_grammar('grammar %s extends %s\nExtraRuleOfDerived = "zz"\n' % (dname, name),
                                            include_source=True)
-            if dm is not None:
+            if dm is not None and not isinstance(getattr(dm, '_source_code', None), str):
+                out['derived'] = 'include_source=True but the derived module has no _source_code'
+            elif dm is not None:
                 rows = []
                 for e in entries:
                     fn = sut.entry(dm, e)
